@@ -247,13 +247,12 @@ def presence_grid_cases(ctx, every=1):
     an untagged CHOICE as one of the members (reached while standing on an OPTIONAL/DEFAULT position)."""
     import itertools
     members0 = [(('int',), ('i', 7), ('i', 1)), (('octs',), ('o', b'ab'), ('o', b'd')), (('bool',), ('b', True), ('b', False))]
-    ch = (('choice', [('null',), ('oid',)]), ('ch', 1, ('oid', (1, 2, 3))), None)
+    # the CHOICE's DEFAULT holds the same inner value under the OTHER alternative: equal content, different value
+    ch = (('choice', [('imp', (128, 0, 5), ('int',)), ('imp', (128, 0, 6), ('int',)), ('oid',)]), ('ch', 1, ('i', 7)), ('ch', 0, ('i', 7)))
     out, i = [], 0
-    # the plain family, then the same with an untagged CHOICE (mandatory or OPTIONAL) at the first, middle, last position
+    # the plain family, then the same with an untagged CHOICE (mandatory, OPTIONAL or DEFAULT) at the first, middle, last position
     for kind, members in [(k, m) for k in ('seq', 'set') for m in [members0] + [members0[:j] + [ch] + members0[j + 1:] for j in range(3)]]:
         for pres in itertools.product(('req', 'opt', 'def'), repeat=3):
-            if any(p == 'def' and m[2] is None for p, m in zip(pres, members)):
-                continue
             fields = []
             for p, (t, val, dflt) in zip(pres, members):
                 fields.append(((('def', dflt) if p == 'def' else p), t))
